@@ -1,12 +1,33 @@
 import TempestVerif.Model.Boundary
 import TempestVerif.Lemmas.ScReal
+import TempestVerif.Lemmas.ScRound
 import Mathlib.Algebra.Order.Round
+import Mathlib.Algebra.Order.ToIntervalMod
+import Mathlib.Logic.Function.Iterate
 import Mathlib.Topology.Algebra.InfiniteSum.Basic
+import Mathlib.MeasureTheory.Group.LIntegral
+import Mathlib.MeasureTheory.Measure.Lebesgue.Basic
+import Mathlib.MeasureTheory.Measure.Haar.OfBasis
+import Mathlib.MeasureTheory.Measure.Haar.Unique
+import Mathlib.MeasureTheory.Measure.Prod
+import Mathlib.MeasureTheory.Constructions.BorelSpace.Order
+import Mathlib.MeasureTheory.Function.Floor
+import Mathlib.MeasureTheory.Integral.Lebesgue.Basic
 import Mathlib.Tactic
 /-
   C16 — boundary maps fold every real number into the unit interval.
-  Theorems are about `Model.Boundary` at `ℝ` (exact arithmetic; IEEE rounding is covered by the
-  bit-exact correspondence, not here).  Property theorems only; no helper lemmas of other properties.
+  Theorems are about `Model.Boundary` at `ℝ` (exact arithmetic); the sections "whole arrays, any scalar
+  type" and "rounded arithmetic" are about the same definitions at EVERY scalar instance resp. at the
+  rounded reals `RR r` of `Lemmas/ScRound.lean` (any monotone idempotent rounding fixing 0 and 1, binary64
+  included).  Bit-level IEEE behaviour is covered by the bit-exact correspondence, not here.
+  The last clause of the property ("a symmetric random-walk proposal followed by the map is a symmetric
+  proposal on the folded space") is stated three ways: (i) the preimage sums `Kper/Krefl/Kvec`
+  q~(x -> y) = sum over {w : fold w = y} of k(w - x) are symmetric in (x, y) (1-D, and on the whole vector with
+  mixed periodic / reflective / untouched coordinates); (ii) the preimage families are complete and, off the
+  end points, non-redundant; (iii) the preimage sum IS the density of the law of fold(x + xi) w.r.t. Lebesgue
+  measure on the unit interval (`C16_*_pushforward`), so the folded proposal KERNEL is reversible w.r.t.
+  Lebesgue measure (`C16_*_kernel_reversible`).  (iii) is proved per coordinate; the d-dimensional
+  pushforward identity is not (see clauses/C16.md).
 -/
 namespace Props.C16
 open Model.Boundary
@@ -304,6 +325,681 @@ theorem C16_fold_periodic_symmetric (k : ℝ → ℝ) (hk : ∀ z, k (-z) = k z)
   unfold Kper; rw [← (Equiv.neg ℤ).tsum_eq]; congr 1; funext m
   simp only [Equiv.neg_apply, Int.cast_neg]; rw [← hk]; congr 1; ring
 
+/-! ### the preimage families are complete (and non-redundant off the end points) -/
+
+/-- the preimage family is complete: every point that reflects to `y` is some `reflPre p y` -/
+theorem C16_reflect_preimage_iff (w y : ℝ) (h0 : 0 ≤ y) (h1 : y ≤ 1) :
+    reflect w = y ↔ ∃ p : ℤ × Bool, w = reflPre p y := by
+  constructor
+  · intro h
+    obtain ⟨k, hk, _⟩ := C16_reflect_triangle w
+    rw [h] at hk
+    rcases abs_cases (w - 2 * (k : ℝ)) with ⟨ha, _⟩ | ⟨ha, _⟩
+    · exact ⟨(k, true), by simp only [reflPre, if_true]; linarith⟩
+    · exact ⟨(k, false), by simp only [reflPre, Bool.false_eq_true, if_false]; linarith⟩
+  · rintro ⟨p, rfl⟩; exact reflPre_reflects p y h0 h1
+
+theorem reflPre_injective (y : ℝ) (h0 : 0 < y) (h1 : y < 1) :
+    Function.Injective (fun p : ℤ × Bool => reflPre p y) := by
+  rintro ⟨m, b⟩ ⟨n, c⟩ h
+  cases b <;> cases c <;> simp only [reflPre, Bool.false_eq_true, if_false, if_true] at h
+  · have : (m : ℝ) = n := by linarith
+    simp [Int.cast_injective this]
+  · exfalso
+    have e : y = ((m - n : ℤ) : ℝ) := by push_cast; linarith
+    rw [e] at h0 h1
+    have a : 0 < m - n := by exact_mod_cast h0
+    have b : m - n < 1 := by exact_mod_cast h1
+    omega
+  · exfalso
+    have e : y = ((n - m : ℤ) : ℝ) := by push_cast; linarith
+    rw [e] at h0 h1
+    have a : 0 < n - m := by exact_mod_cast h0
+    have b : n - m < 1 := by exact_mod_cast h1
+    omega
+  · have : (m : ℝ) = n := by linarith
+    simp [Int.cast_injective this]
+
+theorem C16_periodic_preimage_iff (w y : ℝ) (h0 : 0 ≤ y) (h1 : y < 1) :
+    periodic w = y ↔ ∃ m : ℤ, w = m + y := by
+  constructor
+  · intro h; refine ⟨⌊w⌋, ?_⟩; rw [← h, periodic_eq_fract]; exact (Int.floor_add_fract w).symm
+  · rintro ⟨m, rfl⟩
+    rw [add_comm, C16_periodic_add_int, periodic_eq_fract, Int.fract_eq_iff]
+    exact ⟨h0, h1, 0, by simp⟩
+
+/-! ### the folded proposal on the whole vector (mixed periodic / reflective / untouched coordinates) -/
+
+/-- what the map does to coordinate `i`: wrapped, reflected, or left alone.  A coordinate listed as
+    periodic AND reflective is wrapped first and the reflection is then the identity on `[0,1)`. -/
+inductive Kind | fixed | per | refl
+  deriving DecidableEq
+
+def kind (per refl : List Nat) (i : Nat) : Kind :=
+  if i ∈ per then .per else if i ∈ refl then .refl else .fixed
+
+/-- spacing of the preimage lattice of a coordinate -/
+def Kind.c : Kind → ℝ
+  | .fixed => 0
+  | .per => 1
+  | .refl => 2
+
+/-- admissible preimage labels `(m, b)` of a coordinate: `fixed` has the single label `(0, true)`,
+    `per` the labels `(m, true)` (preimages `m + y`), `refl` all labels (`2m + y` and `2m − y`). -/
+def Kind.ok : Kind → ℤ × Bool → Prop
+  | .fixed, p => p = (0, true)
+  | .per, p => p.2 = true
+  | .refl, _ => True
+
+def pre1 (κ : Kind) (p : ℤ × Bool) (y : ℝ) : ℝ := κ.c * p.1 + (if p.2 then y else -y)
+
+theorem pre1_refl (p : ℤ × Bool) (y : ℝ) : pre1 .refl p y = reflPre p y := by
+  rcases p with ⟨m, b⟩
+  cases b
+  · simp only [pre1, reflPre, Kind.c, Bool.false_eq_true, if_false]; ring
+  · simp only [pre1, reflPre, Kind.c, if_true]
+
+/-- `pre1` really enumerates preimages of the model's coordinate map -/
+theorem C16_pre1_maps (per refl : List Nat) (i : Nat) (p : ℤ × Bool) (y : ℝ)
+    (hp : (kind per refl i).ok p) (h0 : 0 ≤ y) (h1 : y < 1) :
+    coordMap per refl i (pre1 (kind per refl i) p y) = y := by
+  unfold kind at *
+  unfold coordMap
+  by_cases hper : i ∈ per
+  · simp only [hper, if_true] at hp ⊢
+    have hb : p.2 = true := hp
+    have e : pre1 .per p y = y + (p.1 : ℝ) := by simp [pre1, hb, Kind.c]; ring
+    have hy : periodic (y + (p.1 : ℝ)) = y := by
+      rw [C16_periodic_add_int, periodic_eq_fract, Int.fract_eq_iff]; exact ⟨h0, h1, 0, by simp⟩
+    rw [e, hy]
+    by_cases hr : i ∈ refl
+    · simp only [hr, if_true]; exact C16_reflect_id_on_unit y h0 h1.le
+    · simp only [hr, if_false]
+  · by_cases hr : i ∈ refl
+    · simp only [hper, hr, if_true, if_false] at hp ⊢
+      rw [pre1_refl]; exact reflPre_reflects p y h0 h1.le
+    · simp only [hper, hr, if_false] at hp ⊢
+      have : p = (0, true) := hp
+      subst this; simp [pre1, Kind.c]
+
+variable {d : ℕ}
+
+/-- labels of the preimages of a point of the folded space `[0,1]^d` -/
+def Lbl (per refl : List Nat) (d : ℕ) : Type :=
+  {p : Fin d → ℤ × Bool // ∀ i, (kind per refl i.val).ok (p i)}
+
+def preV (per refl : List Nat) (p : Lbl per refl d) (y : Fin d → ℝ) : Fin d → ℝ :=
+  fun i => pre1 (kind per refl i.val) (p.1 i) (y i)
+
+/-- density at `y` of `fold (x + ξ)` when the increment `ξ` has density `k` on `ℝ^d`:
+    `q̃(x → y) = Σ_{w : fold w = y} k (w − x)` -/
+noncomputable def Kvec (per refl : List Nat) (k : (Fin d → ℝ) → ℝ) (x y : Fin d → ℝ) : ℝ :=
+  ∑' p : Lbl per refl d, k (fun i => preV per refl p y i - x i)
+
+def flip1 (p : ℤ × Bool) : ℤ × Bool := (if p.2 then -p.1 else p.1, p.2)
+
+theorem flip1_flip1 (p : ℤ × Bool) : flip1 (flip1 p) = p := by
+  rcases p with ⟨m, b⟩; cases b <;> simp [flip1]
+
+theorem flip1_ok (κ : Kind) (p : ℤ × Bool) (h : κ.ok p) : κ.ok (flip1 p) := by
+  cases κ
+  · have : p = (0, true) := h
+    subst this; show flip1 (0, true) = (0, true); simp [flip1]
+  · exact h
+  · trivial
+
+def flipV (per refl : List Nat) : Lbl per refl d ≃ Lbl per refl d where
+  toFun p := ⟨fun i => flip1 (p.1 i), fun i => flip1_ok _ _ (p.2 i)⟩
+  invFun p := ⟨fun i => flip1 (p.1 i), fun i => flip1_ok _ _ (p.2 i)⟩
+  left_inv p := by apply Subtype.ext; funext i; exact flip1_flip1 _
+  right_inv p := by apply Subtype.ext; funext i; exact flip1_flip1 _
+
+/-- the sign pattern relating the two increments -/
+theorem preV_flip (per refl : List Nat) (p : Lbl per refl d) (x y : Fin d → ℝ) (i : Fin d) :
+    preV per refl (flipV per refl p) x i - y i =
+      (if (p.1 i).2 then -(preV per refl p y i - x i) else (preV per refl p y i - x i)) := by
+  have hf : ((flipV per refl p).1 i) = flip1 (p.1 i) := rfl
+  simp only [preV, pre1, hf, flip1]
+  rcases p.1 i with ⟨m, b⟩
+  cases b
+  · simp only [Bool.false_eq_true, if_false]; ring
+  · simp only [if_true, Int.cast_neg]; ring
+
+/-- **symmetry of the folded proposal on the whole vector.**  If the increment density is invariant
+    under every sign change that negates all non-reflective coordinates (and any subset of the
+    reflective ones), then the density of `fold (x + ξ)` at `y` equals that of `fold (y + ξ)` at `x`. -/
+theorem C16_fold_vector_symmetric (per refl : List Nat) (k : (Fin d → ℝ) → ℝ)
+    (hk : ∀ (s : Fin d → Bool) (z : Fin d → ℝ),
+        (∀ i : Fin d, s i = false → kind per refl i.val = .refl) →
+        k (fun i => if s i then -z i else z i) = k z)
+    (x y : Fin d → ℝ) : Kvec per refl k x y = Kvec per refl k y x := by
+  unfold Kvec
+  rw [← (flipV per refl).tsum_eq]
+  congr 1; funext p
+  have e : (fun i => preV per refl (flipV per refl p) y i - x i) =
+      fun i => if (p.1 i).2 then -(preV per refl p x i - y i) else (preV per refl p x i - y i) := by
+    funext i; exact preV_flip per refl p y x i
+  rw [e, hk (fun i => (p.1 i).2)]
+  intro i hi
+  have := p.2 i
+  cases hκ : kind per refl i.val
+  · rw [hκ] at this; have e2 : p.1 i = (0, true) := this; rw [e2] at hi; simp at hi
+  · rw [hκ] at this; have e2 : (p.1 i).2 = true := this; rw [e2] at hi; simp at hi
+  · rfl
+
+/-- the two label sums converge together -/
+theorem C16_fold_vector_summable_iff (per refl : List Nat) (k : (Fin d → ℝ) → ℝ)
+    (hk : ∀ (s : Fin d → Bool) (z : Fin d → ℝ),
+        (∀ i : Fin d, s i = false → kind per refl i.val = .refl) →
+        k (fun i => if s i then -z i else z i) = k z)
+    (x y : Fin d → ℝ) :
+    Summable (fun p : Lbl per refl d => k (fun i => preV per refl p y i - x i)) ↔
+    Summable (fun p : Lbl per refl d => k (fun i => preV per refl p x i - y i)) := by
+  rw [← (flipV per refl).summable_iff]
+  apply iff_of_eq; congr 1; funext p
+  simp only [Function.comp]
+  have e : (fun i => preV per refl (flipV per refl p) y i - x i) =
+      fun i => if (p.1 i).2 then -(preV per refl p x i - y i) else (preV per refl p x i - y i) := by
+    funext i; exact preV_flip per refl p y x i
+  rw [e, hk (fun i => (p.1 i).2)]
+  intro i hi
+  have := p.2 i
+  cases hκ : kind per refl i.val
+  · rw [hκ] at this; have e2 : p.1 i = (0, true) := this; rw [e2] at hi; simp at hi
+  · rw [hκ] at this; have e2 : (p.1 i).2 = true := this; rw [e2] at hi; simp at hi
+  · rfl
+
+/-- no reflective-only coordinate (periodic folds, any dimension): an even density suffices —
+    correlated covariances included. -/
+theorem C16_fold_vector_periodic_symmetric (per refl : List Nat) (k : (Fin d → ℝ) → ℝ)
+    (hR : ∀ i : Fin d, i.val ∈ refl → i.val ∈ per)
+    (hk : ∀ z : Fin d → ℝ, k (fun i => -z i) = k z) (x y : Fin d → ℝ) :
+    Kvec per refl k x y = Kvec per refl k y x := by
+  apply C16_fold_vector_symmetric
+  intro s z hs
+  have : ∀ i, s i = true := by
+    intro i
+    by_contra h
+    have hf : s i = false := by simpa using h
+    have := hs i hf
+    unfold kind at this
+    by_cases hp : i.val ∈ per
+    · simp [hp] at this
+    · by_cases hr : i.val ∈ refl
+      · exact hp (hR i hr)
+      · simp [hp, hr] at this
+  simp only [this, if_true]; exact hk z
+
+/-- independent coordinates, each with an even density (e.g. a Gaussian with diagonal covariance):
+    symmetric for every choice of periodic / reflective coordinates. -/
+theorem C16_fold_vector_product_symmetric (per refl : List Nat) (k1 : Fin d → ℝ → ℝ)
+    (hk : ∀ i z, k1 i (-z) = k1 i z) (x y : Fin d → ℝ) :
+    Kvec per refl (fun z => ∏ i, k1 i (z i)) x y = Kvec per refl (fun z => ∏ i, k1 i (z i)) y x := by
+  apply C16_fold_vector_symmetric
+  intro s z _
+  apply Finset.prod_congr rfl
+  intro i _
+  by_cases h : s i <;> simp [h, hk]
+
+/-! ### the preimage sum is the density of the folded proposal; the folded kernel is reversible -/
+section measure
+open MeasureTheory Set
+open scoped ENNReal
+
+noncomputable def KperE (k : ℝ → ℝ≥0∞) (x y : ℝ) : ℝ≥0∞ := ∑' m : ℤ, k (m + y - x)
+
+
+theorem lintegral_unfold (f : ℝ → ℝ≥0∞) (hf : Measurable f) :
+    ∫⁻ w, f w = ∫⁻ t in Ico (0:ℝ) 1, ∑' m : ℤ, f (m + t) := by
+  have h1 : ∫⁻ w, f w = ∑' m : ℤ, ∫⁻ w in Ico (m:ℝ) (m+1), f w := by
+    rw [← lintegral_iUnion (fun m => measurableSet_Ico) (pairwise_disjoint_Ico_intCast ℝ),
+      iUnion_Ico_intCast, Measure.restrict_univ]
+  have h2 : ∀ m : ℤ, ∫⁻ w in Ico (m:ℝ) (m+1), f w = ∫⁻ t in Ico (0:ℝ) 1, f (m + t) := by
+    intro m
+    rw [← lintegral_indicator measurableSet_Ico, ← lintegral_indicator measurableSet_Ico,
+      ← lintegral_add_left_eq_self _ (m:ℝ)]
+    congr 1; funext t
+    have : (m:ℝ) + t ∈ Ico (m:ℝ) (m+1) ↔ t ∈ Ico (0:ℝ) 1 := by simp [mem_Ico]
+    by_cases h : t ∈ Ico (0:ℝ) 1
+    · rw [indicator_of_mem h, indicator_of_mem (this.mpr h)]
+    · rw [indicator_of_notMem h, indicator_of_notMem (fun h' => h (this.mp h'))]
+  rw [h1, lintegral_tsum]
+  · exact tsum_congr h2
+  · intro m; exact (hf.comp (measurable_const.add measurable_id)).aemeasurable
+
+theorem measurable_reflect : Measurable (reflect : ℝ → ℝ) := by
+  have : (reflect : ℝ → ℝ) = fun x => if ⌊x⌋ % 2 = 0 then Int.fract x else 1 - Int.fract x := by
+    funext x
+    rcases Int.emod_two_eq_zero_or_one ⌊x⌋ with h | h
+    · rw [reflect_even x h]; simp [h]
+    · rw [reflect_odd x h]; simp [h]
+  rw [this]
+  refine Measurable.ite ?_ measurable_fract (measurable_const.sub measurable_fract)
+  exact Int.measurable_floor (MeasurableSet.of_discrete (s := {n : ℤ | n % 2 = 0}))
+
+/-- parity splitting of ℤ: `(j, true) ↦ 2j`, `(j, false) ↦ 2j − 1` -/
+def parityE : ℤ × Bool ≃ ℤ where
+  toFun p := if p.2 then 2 * p.1 else 2 * p.1 - 1
+  invFun m := ((m + 1) / 2, decide (m % 2 = 0))
+  left_inv p := by
+    rcases p with ⟨j, b⟩
+    cases b
+    · simp only [Bool.false_eq_true, if_false]; ext
+      · show (2 * j - 1 + 1) / 2 = j; omega
+      · exact decide_eq_false (by omega)
+    · simp only [if_true]; ext
+      · show (2 * j + 1) / 2 = j; omega
+      · exact decide_eq_true (by omega)
+  right_inv m := by
+    by_cases h : m % 2 = 0
+    · simp only [h, decide_true, if_true]; omega
+    · simp only [h, decide_false, Bool.false_eq_true, if_false]; omega
+
+/-- density (w.r.t. Lebesgue measure on `(0,1)`) of `reflect (x + ξ)` when `ξ` has density `k` -/
+noncomputable def KreflE (k : ℝ → ℝ≥0∞) (x y : ℝ) : ℝ≥0∞ := ∑' p : ℤ × Bool, k (reflPre p y - x)
+
+theorem measurable_reflPre (p : ℤ × Bool) : Measurable (reflPre p) := by
+  rcases p with ⟨j, b⟩
+  cases b
+  · exact measurable_const.sub measurable_id
+  · exact measurable_const.add measurable_id
+
+theorem refl_cell (k g : ℝ → ℝ≥0∞) (x : ℝ) (p : ℤ × Bool) :
+    ∫⁻ t in Ico (0:ℝ) 1, g (reflect ((parityE p : ℤ) + t)) * k ((parityE p : ℤ) + t - x) =
+    ∫⁻ s in Ioo (0:ℝ) 1, g s * k (reflPre p s - x) := by
+  rw [← Measure.restrict_congr_set (Ioo_ae_eq_Ico (a := (0:ℝ)) (b := 1))]
+  rcases p with ⟨j, b⟩
+  cases b
+  · -- odd cell: t ↦ 1 − t
+    set φ : ℝ → ℝ≥0∞ := fun s => g s * k (reflPre (j, false) s - x) with hφ
+    have h1 : ∫⁻ t in Ioo (0:ℝ) 1, g (reflect ((parityE (j, false) : ℤ) + t)) *
+        k ((parityE (j, false) : ℤ) + t - x) = ∫⁻ t in Ioo (0:ℝ) 1, φ (1 - t) := by
+      apply setLIntegral_congr_fun measurableSet_Ioo
+      intro t ht
+      have e : ((parityE (j, false) : ℤ) : ℝ) + t = reflPre (j, false) (1 - t) := by
+        simp [parityE, reflPre]; ring
+      simp only [hφ]
+      rw [e, reflPre_reflects (j, false) (1 - t) (by linarith [ht.2]) (by linarith [ht.1])]
+    rw [h1, ← lintegral_indicator measurableSet_Ioo, ← lintegral_indicator measurableSet_Ioo,
+      ← lintegral_sub_left_eq_self ((Ioo (0:ℝ) 1).indicator φ) 1]
+    congr 1; funext t
+    have : (1 - t) ∈ Ioo (0:ℝ) 1 ↔ t ∈ Ioo (0:ℝ) 1 := by
+      simp only [mem_Ioo]; constructor <;> rintro ⟨a, b⟩ <;> constructor <;> linarith
+    by_cases h : t ∈ Ioo (0:ℝ) 1
+    · rw [indicator_of_mem h, indicator_of_mem (this.mpr h)]
+    · rw [indicator_of_notMem h, indicator_of_notMem (fun h' => h (this.mp h'))]
+  · apply setLIntegral_congr_fun measurableSet_Ioo
+    intro t ht
+    have e : ((parityE (j, true) : ℤ) : ℝ) + t = reflPre (j, true) t := by
+      simp [parityE, reflPre]
+    simp only []
+    rw [e, reflPre_reflects (j, true) t ht.1.le ht.2.le]
+
+/-- **the preimage sum IS the law of the folded proposal** (reflective coordinate) -/
+theorem C16_reflective_pushforward (k g : ℝ → ℝ≥0∞) (hk : Measurable k) (hg : Measurable g) (x : ℝ) :
+    ∫⁻ ξ, g (reflect (x + ξ)) * k ξ = ∫⁻ y in Ioo (0:ℝ) 1, g y * KreflE k x y := by
+  have e1 : ∫⁻ ξ, g (reflect (x + ξ)) * k ξ = ∫⁻ w, g (reflect w) * k (w - x) := by
+    rw [← lintegral_sub_right_eq_self (fun ξ => g (reflect (x + ξ)) * k ξ) x]
+    congr 1; funext w; simp
+  have hF : Measurable (fun w => g (reflect w) * k (w - x)) :=
+    (hg.comp measurable_reflect).mul (hk.comp (measurable_id.sub_const x))
+  have e2 : ∫⁻ t in Ico (0:ℝ) 1, ∑' m : ℤ, g (reflect (m + t)) * k (m + t - x) =
+      ∑' m : ℤ, ∫⁻ t in Ico (0:ℝ) 1, g (reflect (m + t)) * k (m + t - x) :=
+    lintegral_tsum (fun m => (hF.comp (measurable_const.add measurable_id)).aemeasurable)
+  rw [e1, lintegral_unfold _ hF, e2, ← parityE.tsum_eq]
+  simp only [KreflE]
+  have h3 : ∀ y, g y * ∑' p : ℤ × Bool, k (reflPre p y - x) =
+      ∑' p : ℤ × Bool, g y * k (reflPre p y - x) := fun y => ENNReal.tsum_mul_left.symm
+  simp only [h3]
+  rw [lintegral_tsum]
+  · exact tsum_congr (fun p => refl_cell k g x p)
+  · intro p
+    exact (hg.mul (hk.comp ((measurable_reflPre p).sub_const x))).aemeasurable
+
+
+
+theorem C16_KreflE_symmetric (k : ℝ → ℝ≥0∞) (hk : ∀ z, k (-z) = k z) (x y : ℝ) :
+    KreflE k x y = KreflE k y x := by
+  unfold KreflE; rw [← flipE.tsum_eq]; congr 1; funext p; rcases p with ⟨m, b⟩; cases b
+  · simp [flipE, reflPre]; congr 1; ring
+  · simp only [flipE, reflPre, Equiv.coe_fn_mk, if_true, Int.cast_neg]; rw [← hk]; congr 1; ring
+
+theorem C16_KperE_symmetric (k : ℝ → ℝ≥0∞) (hk : ∀ z, k (-z) = k z) (x y : ℝ) :
+    KperE k x y = KperE k y x := by
+  unfold KperE; rw [← (Equiv.neg ℤ).tsum_eq]; congr 1; funext m
+  simp only [Equiv.neg_apply, Int.cast_neg]; rw [← hk]; congr 1; ring
+
+theorem measurable_KreflE (k : ℝ → ℝ≥0∞) (hk : Measurable k) :
+    Measurable (Function.uncurry (KreflE k)) := by
+  unfold KreflE Function.uncurry
+  exact Measurable.ennreal_tsum
+    (fun p => hk.comp (((measurable_reflPre p).comp measurable_snd).sub measurable_fst))
+
+theorem measurable_KperE (k : ℝ → ℝ≥0∞) (hk : Measurable k) :
+    Measurable (Function.uncurry (KperE k)) := by
+  unfold KperE Function.uncurry
+  exact Measurable.ennreal_tsum
+    (fun m => hk.comp ((measurable_const.add measurable_snd).sub measurable_fst))
+
+/-- a kernel with a symmetric density w.r.t. Lebesgue measure on `I` is reversible w.r.t. it -/
+theorem reversible_of_symmetric_density (I : Set ℝ) (K : ℝ → ℝ → ℝ≥0∞)
+    (hK : Measurable (Function.uncurry K)) (hsym : ∀ x y, K x y = K y x)
+    (f g : ℝ → ℝ≥0∞) (hf : Measurable f) (hg : Measurable g) :
+    ∫⁻ x in I, f x * ∫⁻ y in I, g y * K x y = ∫⁻ y in I, g y * ∫⁻ x in I, f x * K y x := by
+  have hKx : ∀ x, Measurable (K x) := fun x => hK.comp (measurable_const.prodMk measurable_id)
+  have hKy : ∀ y, Measurable (fun x => K x y) := fun y => hK.comp (measurable_id.prodMk measurable_const)
+  have l : ∀ x, f x * ∫⁻ y in I, g y * K x y = ∫⁻ y in I, f x * (g y * K x y) :=
+    fun x => (lintegral_const_mul _ (hg.mul (hKx x))).symm
+  have r : ∀ y, g y * ∫⁻ x in I, f x * K y x = ∫⁻ x in I, g y * (f x * K y x) :=
+    fun y => (lintegral_const_mul _ (hf.mul (hKx y))).symm
+  simp only [l, r]
+  rw [lintegral_lintegral_swap]
+  · congr 1; funext y; congr 1; funext x; rw [hsym x y]; ring
+  · exact (((hf.comp measurable_fst).mul ((hg.comp measurable_snd).mul hK))).aemeasurable
+
+/-- **symmetric proposal on the folded space, kernel form** (reflective coordinate):
+    the Markov kernel `x ↦ law of reflect (x + ξ)` with `ξ ~ k` even satisfies
+    `∫ f(x) E g(fold(x+ξ)) dx = ∫ g(y) E f(fold(y+ξ)) dy` over the unit interval. -/
+theorem C16_reflective_kernel_reversible (k f g : ℝ → ℝ≥0∞) (hk : Measurable k)
+    (hf : Measurable f) (hg : Measurable g) (heven : ∀ z, k (-z) = k z) :
+    ∫⁻ x in Ioo (0:ℝ) 1, f x * ∫⁻ ξ, g (reflect (x + ξ)) * k ξ =
+    ∫⁻ y in Ioo (0:ℝ) 1, g y * ∫⁻ ξ, f (reflect (y + ξ)) * k ξ := by
+  simp only [C16_reflective_pushforward k _ hk hg, C16_reflective_pushforward k _ hk hf]
+  exact reversible_of_symmetric_density _ _ (measurable_KreflE k hk)
+    (C16_KreflE_symmetric k heven) f g hf hg
+
+theorem measurable_periodic : Measurable (periodic : ℝ → ℝ) := by
+  have : (periodic : ℝ → ℝ) = Int.fract := funext periodic_eq_fract
+  rw [this]; exact measurable_fract
+
+/-- **the preimage sum IS the law of the folded proposal** (periodic coordinate): for every
+    measurable test function `g`, `E g(periodic (x + ξ)) = ∫_{[0,1)} g(y) · Σ_m k(m + y − x) dy`. -/
+theorem C16_periodic_pushforward (k g : ℝ → ℝ≥0∞) (hk : Measurable k) (hg : Measurable g) (x : ℝ) :
+    ∫⁻ ξ, g (periodic (x + ξ)) * k ξ = ∫⁻ y in Ico (0:ℝ) 1, g y * KperE k x y := by
+  have e1 : ∫⁻ ξ, g (periodic (x + ξ)) * k ξ = ∫⁻ w, g (periodic w) * k (w - x) := by
+    rw [← lintegral_sub_right_eq_self (fun ξ => g (periodic (x + ξ)) * k ξ) x]
+    congr 1; funext w; simp
+  have hF : Measurable (fun w => g (periodic w) * k (w - x)) :=
+    (hg.comp measurable_periodic).mul (hk.comp (measurable_id.sub_const x))
+  rw [e1, lintegral_unfold _ hF]
+  apply setLIntegral_congr_fun measurableSet_Ico
+  intro t ht
+  simp only [KperE]
+  rw [← ENNReal.tsum_mul_left]
+  congr 1; funext m
+  have : periodic ((m:ℝ) + t) = t := by
+    rw [add_comm, C16_periodic_add_int, periodic_eq_fract, Int.fract_eq_iff]
+    exact ⟨ht.1, ht.2, 0, by simp⟩
+  rw [this]
+
+/-- **symmetric proposal on the folded space, kernel form** (periodic coordinate) -/
+theorem C16_periodic_kernel_reversible (k f g : ℝ → ℝ≥0∞) (hk : Measurable k)
+    (hf : Measurable f) (hg : Measurable g) (heven : ∀ z, k (-z) = k z) :
+    ∫⁻ x in Ico (0:ℝ) 1, f x * ∫⁻ ξ, g (periodic (x + ξ)) * k ξ =
+    ∫⁻ y in Ico (0:ℝ) 1, g y * ∫⁻ ξ, f (periodic (y + ξ)) * k ξ := by
+  simp only [C16_periodic_pushforward k _ hk hg, C16_periodic_pushforward k _ hk hf]
+  exact reversible_of_symmetric_density _ _ (measurable_KperE k hk)
+    (C16_KperE_symmetric k heven) f g hf hg
+
+/-- the real-valued sums of the first formulation are these densities whenever they converge -/
+theorem Krefl_ofReal (k : ℝ → ℝ) (hk0 : ∀ z, 0 ≤ k z) (x y : ℝ)
+    (hs : Summable (fun p : ℤ × Bool => k (reflPre p y - x))) :
+    ENNReal.ofReal (Krefl k x y) = KreflE (fun z => ENNReal.ofReal (k z)) x y :=
+  ENNReal.ofReal_tsum_of_nonneg (fun _ => hk0 _) hs
+
+theorem Kper_ofReal (k : ℝ → ℝ) (hk0 : ∀ z, 0 ≤ k z) (x y : ℝ)
+    (hs : Summable (fun m : ℤ => k (m + y - x))) :
+    ENNReal.ofReal (Kper k x y) = KperE (fun z => ENNReal.ofReal (k z)) x y :=
+  ENNReal.ofReal_tsum_of_nonneg (fun _ => hk0 _) hs
+
+end measure
+
+/-! ### rounded arithmetic: why the statement says "identifying the periodic end points 0 and 1" -/
+section rounded
+variable (r : Rounding)
+
+/-- the periodic map computed with `r`-rounded arithmetic, as a function on the reals -/
+noncomputable def perR (x : ℝ) : ℝ := (periodic (RR.mk r x)).val
+/-- the reflective map computed with `r`-rounded arithmetic -/
+noncomputable def reflR (x : ℝ) : ℝ := (reflect (RR.mk r x)).val
+
+theorem perR_eq (x : ℝ) : perR r x = r.rnd (Int.fract x) := by
+  simp [perR, periodic]
+
+theorem reflR_eq (x : ℝ) :
+    reflR r x = if ⌊x⌋ % 2 = 0 then r.rnd (Int.fract x) else r.rnd (1 - r.rnd (Int.fract x)) := by
+  unfold reflR reflect
+  by_cases h : ⌊x⌋ % 2 = 0
+  · simp [h]
+  · simp [h]
+
+theorem rnd_unit (z : ℝ) (h0 : 0 ≤ z) (h1 : z ≤ 1) : 0 ≤ r.rnd z ∧ r.rnd z ≤ 1 :=
+  ⟨r.rnd_zero ▸ r.mono h0, r.rnd_one ▸ r.mono h1⟩
+
+/-- in rounded arithmetic the wrapped value lies in the CLOSED unit interval (1 is attained, below) -/
+theorem C16_round_periodic_range (x : ℝ) : 0 ≤ perR r x ∧ perR r x ≤ 1 := by
+  rw [perR_eq]; exact rnd_unit r _ (Int.fract_nonneg x) (Int.fract_lt_one x).le
+
+theorem C16_round_reflect_range (x : ℝ) : 0 ≤ reflR r x ∧ reflR r x ≤ 1 := by
+  rw [reflR_eq]
+  have hf := rnd_unit r _ (Int.fract_nonneg x) (Int.fract_lt_one x).le
+  split
+  · exact hf
+  · exact rnd_unit r _ (by linarith [hf.2]) (by linarith [hf.1])
+
+theorem perR_rep (x : ℝ) : r.rnd (perR r x) = perR r x := by rw [perR_eq, r.idem]
+theorem reflR_rep (x : ℝ) : r.rnd (reflR r x) = reflR r x := by
+  rw [reflR_eq]; split <;> rw [r.idem]
+
+/-- on representable points of `[0,1)` the rounded wrap is the identity; `1 ↦ 0` -/
+theorem perR_fix (z : ℝ) (h0 : 0 ≤ z) (h1 : z < 1) (hz : r.rnd z = z) : perR r z = z := by
+  rw [perR_eq, Int.fract_eq_iff.mpr ⟨h0, h1, 0, by simp⟩, hz]
+theorem perR_one : perR r 1 = 0 := by rw [perR_eq]; simp [r.rnd_zero]
+theorem perR_zero : perR r 0 = 0 := by rw [perR_eq]; simp [r.rnd_zero]
+
+/-- on representable points of `[0,1]` (both ends) the rounded reflection is the identity -/
+theorem reflR_fix (z : ℝ) (h0 : 0 ≤ z) (h1 : z ≤ 1) (hz : r.rnd z = z) : reflR r z = z := by
+  rw [reflR_eq]
+  rcases eq_or_lt_of_le h1 with rfl | hlt
+  · have : ⌊(1:ℝ)⌋ % 2 ≠ 0 := by simp
+    simp [r.rnd_zero, r.rnd_one]
+  · have hf : ⌊z⌋ = 0 := by rw [Int.floor_eq_iff]; constructor <;> simp [h0, hlt]
+    simp [hf, Int.fract, hz]
+
+/-- **idempotence of the wrap, up to identifying the end points**: in rounded arithmetic a second
+    application either changes nothing, or the first result was exactly `1` and the second is `0`. -/
+theorem C16_round_periodic_idem_mod_ends (x : ℝ) :
+    perR r (perR r x) = perR r x ∨ (perR r x = 1 ∧ perR r (perR r x) = 0) := by
+  have h := C16_round_periodic_range r x
+  rcases eq_or_lt_of_le h.2 with h1 | h1
+  · right; exact ⟨h1, by rw [h1]; exact perR_one r⟩
+  · left; exact perR_fix r _ h.1 h1 (perR_rep r x)
+
+/-- the reflection stays exactly idempotent in rounded arithmetic -/
+theorem C16_round_reflect_idem (x : ℝ) : reflR r (reflR r x) = reflR r x :=
+  reflR_fix r _ (C16_round_reflect_range r x).1 (C16_round_reflect_range r x).2 (reflR_rep r x)
+
+end rounded
+
+/-- the end-point case is real: with a monotone idempotent rounding that rounds up, `−1/4` wraps to
+    `1` and `1` wraps to `0` — exact idempotence FAILS, the identified one holds.  (Binary64 does the
+    same at `x = −2^-60`: `x % 1.0 == 1.0`; see the `periodic_hits_one` counter of suite boundary-F.) -/
+theorem C16_round_periodic_not_idem :
+    perR ScRound.ceilR (-1/4) = 1 ∧ perR ScRound.ceilR (perR ScRound.ceilR (-1/4)) = 0 := by
+  have h1 : perR ScRound.ceilR (-1/4) = 1 := by
+    rw [perR_eq]
+    have : Int.fract (-1/4 : ℝ) = 3/4 := by
+      rw [Int.fract_eq_iff]; refine ⟨by norm_num, by norm_num, -1, by norm_num⟩
+    rw [this]
+    show ((⌈(3/4 : ℝ)⌉ : ℤ) : ℝ) = 1
+    have : ⌈(3/4 : ℝ)⌉ = 1 := by rw [Int.ceil_eq_iff]; constructor <;> norm_num
+    rw [this]; norm_num
+  exact ⟨h1, by rw [h1]; exact perR_one _⟩
+
+/-- with exact arithmetic the rounded maps are the maps of the first part of this file -/
+theorem perR_exact (x : ℝ) : perR ScRound.exact x = periodic x := by
+  rw [perR_eq, periodic_eq_fract]; rfl
+
+/-! ### whole arrays, any scalar type -/
+
+/-- `modify` folded over an index list applies `f` once per occurrence of the index -/
+theorem foldl_modify_get_iter {β : Type} (f : β → β) (l : List Nat) (u : List β) (i : Nat) :
+    (l.foldl (fun v j => v.modify j f) u)[i]? = (u[i]?).map (f^[l.count i]) := by
+  induction l generalizing u with
+  | nil => simp
+  | cons a l ih =>
+    rw [List.foldl_cons, ih, List.getElem?_modify]
+    by_cases hai : a = i
+    · subst hai
+      cases hu : u[a]? with
+      | none => simp
+      | some x => simp
+    · have : ¬ i = a := fun h => hai h.symm
+      cases hu : u[i]? with
+      | none => simp
+      | some x => simp [hai]
+
+/-- coordinate-wise description of `apply` for EVERY scalar instance (`Float` and `Rat` included):
+    coordinate `i` is wrapped once per occurrence in `per`, then reflected once per occurrence in `refl`. -/
+theorem C16_apply_coord_generic {α : Type} [Sc α] (per refl : List Nat) (u : List α) (i : Nat) :
+    (apply per refl u)[i]? =
+      (u[i]?).map (fun x => (reflect^[refl.count i]) ((periodic^[per.count i]) x)) := by
+  unfold apply
+  rw [foldl_modify_get_iter, foldl_modify_get_iter]
+  cases u[i]? <;> simp
+
+/-- non-designated coordinates are untouched — for every scalar instance, so in particular for the
+    `Float` model that the bit-exact suite ties to the real code (`-0.0`, subnormals, 1e300 included) -/
+theorem C16_untouched_generic {α : Type} [Sc α] (per refl : List Nat) (u : List α) (i : Nat)
+    (h1 : i ∉ per) (h2 : i ∉ refl) : (apply per refl u)[i]? = u[i]? := by
+  rw [C16_apply_coord_generic, List.count_eq_zero_of_not_mem h1, List.count_eq_zero_of_not_mem h2]
+  cases u[i]? <;> simp
+
+theorem C16_apply_length_generic {α : Type} [Sc α] (per refl : List Nat) (u : List α) :
+    (apply per refl u).length = u.length := by
+  simp [apply, foldl_modify_length]
+
+/-- the bounds check reads exactly the remaining coordinates — for every scalar instance -/
+theorem C16_checkBounds_iff_generic {α : Type} [Sc α] (per refl : List Nat) (u : List α) :
+    checkBounds per refl u = true ↔
+      ∀ i, (hi : i < u.length) → i ∉ per → i ∉ refl → inUnit u[i] = true := by
+  unfold checkBounds
+  rw [List.all_eq_true]
+  constructor
+  · intro h i hi hp hr
+    have := h i (List.mem_range.mpr hi)
+    simpa [hp, hr, hi] using this
+  · intro h i hi
+    have hi' := List.mem_range.mp hi
+    by_cases hp : i ∈ per
+    · simp [hp]
+    · by_cases hr : i ∈ refl
+      · simp [hr]
+      · have := h i hi' hp hr
+        simp [hp, hr, hi', this]
+
+/-- 2-D arrays: row by row -/
+theorem C16_apply2_row {α : Type} [Sc α] (per refl : List Nat) (us : List (List α)) (j : Nat) :
+    (apply2 per refl us)[j]? = (us[j]?).map (apply per refl) := by
+  simp [apply2]
+
+theorem C16_checkBounds2_row {α : Type} [Sc α] (per refl : List Nat) (us : List (List α)) (j : Nat) :
+    (checkBounds2 per refl us)[j]? = (us[j]?).map (checkBounds per refl) := by
+  simp [checkBounds2]
+
+theorem iterate_idem {β : Type} (f : β → β) (hf : ∀ x, f (f x) = f x) (n : Nat) (hn : 0 < n) (x : β) :
+    f^[n] x = f x := by
+  induction n generalizing x with
+  | zero => omega
+  | succ n ih =>
+    rcases Nat.eq_zero_or_pos n with rfl | hpos
+    · rfl
+    · rw [Function.iterate_succ_apply, ih hpos, hf]
+
+section roundedArrays
+variable (r : Rounding)
+
+theorem per_val (z : RR r) : (periodic z).val = perR r z.val := rfl
+theorem refl_val (z : RR r) : (reflect z).val = reflR r z.val := rfl
+
+theorem refl_idem_RR (z : RR r) : reflect (reflect z) = reflect z :=
+  RR.ext (by rw [refl_val, refl_val]; exact C16_round_reflect_idem r z.val)
+
+/-- after at least one wrap the value is a representable point of `[0,1]` -/
+theorem per_iter_good (n : Nat) (hn : 0 < n) (z : RR r) :
+    0 ≤ ((periodic^[n]) z).val ∧ ((periodic^[n]) z).val ≤ 1 ∧
+      r.rnd ((periodic^[n]) z).val = ((periodic^[n]) z).val := by
+  obtain ⟨m, rfl⟩ : ∃ m, n = m + 1 := ⟨n - 1, by omega⟩
+  rw [Function.iterate_succ_apply', per_val]
+  exact ⟨(C16_round_periodic_range r _).1, (C16_round_periodic_range r _).2, perR_rep r _⟩
+
+/-- **array-level idempotence in rounded arithmetic, identifying the periodic end points**:
+    for every index list (duplicates, overlaps) the second application changes coordinate `i` only
+    if `i` is periodic, the first result was exactly `1`, and the second is `0`. -/
+theorem C16_round_apply_idem_mod_ends (per refl : List Nat) (u : List (RR r)) (i : Nat) (a b : RR r)
+    (ha : (apply per refl (apply per refl u))[i]? = some a) (hb : (apply per refl u)[i]? = some b) :
+    a = b ∨ (i ∈ per ∧ b.val = 1 ∧ a.val = 0) := by
+  rw [C16_apply_coord_generic, hb] at ha
+  simp only [Option.map_some, Option.some.injEq] at ha
+  rw [C16_apply_coord_generic] at hb
+  cases hu : u[i]? with
+  | none => simp [hu] at hb
+  | some x =>
+    rw [hu] at hb
+    simp only [Option.map_some, Option.some.injEq] at hb
+    rcases Nat.eq_zero_or_pos (per.count i) with hp0 | hp
+    · -- not periodic: the reflection is exactly idempotent
+      left
+      rw [hp0] at ha hb
+      simp only [Function.iterate_zero, id_eq] at ha hb
+      rcases Nat.eq_zero_or_pos (refl.count i) with hr0 | hr
+      · rw [hr0] at ha hb; simp only [Function.iterate_zero, id_eq] at ha hb; rw [← ha]
+      · rw [iterate_idem _ (refl_idem_RR r) _ hr] at ha hb
+        rw [← ha, ← hb, refl_idem_RR]
+    · have hmem : i ∈ per := List.count_pos_iff.mp hp
+      set w := (periodic^[per.count i]) x with hw
+      obtain ⟨w0, w1, wrep⟩ := per_iter_good r _ hp x
+      rw [← hw] at w0 w1 wrep
+      -- the reflections do nothing on w
+      have hGfix : reflect w = w := RR.ext (by rw [refl_val]; exact reflR_fix r _ w0 w1 wrep)
+      have hbw : b = w := by rw [← hb]; exact Function.iterate_fixed hGfix _
+      rcases eq_or_lt_of_le w1 with h1 | h1
+      · right
+        refine ⟨hmem, by rw [hbw]; exact h1, ?_⟩
+        have hP1 : (periodic b).val = 0 := by rw [per_val, hbw, h1]; exact perR_one r
+        have hP0 : periodic (periodic b) = periodic b :=
+          RR.ext (by rw [per_val, hP1]; exact perR_zero r)
+        obtain ⟨m, hm⟩ : ∃ m, per.count i = m + 1 := ⟨per.count i - 1, by omega⟩
+        have hit : (periodic^[per.count i]) b = periodic b := by
+          rw [hm, Function.iterate_succ_apply]; exact Function.iterate_fixed hP0 _
+        have hG0 : reflect (periodic b) = periodic b :=
+          RR.ext (by rw [refl_val, hP1]; exact reflR_fix r 0 le_rfl zero_le_one r.rnd_zero)
+        rw [← ha, hit, Function.iterate_fixed hG0, hP1]
+      · left
+        have hPfix : periodic w = w := RR.ext (by rw [per_val]; exact perR_fix r _ w0 h1 wrep)
+        rw [← ha, hbw, Function.iterate_fixed hPfix, Function.iterate_fixed hGfix]
+
+/-- designated coordinates of the rounded image lie in the closed unit interval -/
+theorem C16_round_apply_range (per refl : List Nat) (u : List (RR r)) (i : Nat) (b : RR r)
+    (h : i ∈ per ∨ i ∈ refl) (hb : (apply per refl u)[i]? = some b) : 0 ≤ b.val ∧ b.val ≤ 1 := by
+  rw [C16_apply_coord_generic] at hb
+  cases hu : u[i]? with
+  | none => simp [hu] at hb
+  | some x =>
+    rw [hu] at hb
+    simp only [Option.map_some, Option.some.injEq] at hb
+    rcases Nat.eq_zero_or_pos (refl.count i) with hr0 | hr
+    · have hp : 0 < per.count i := by
+        rcases h with h | h
+        · exact List.count_pos_iff.mpr h
+        · exact absurd (List.count_pos_iff.mpr h) (by omega)
+      rw [hr0] at hb; simp only [Function.iterate_zero, id_eq] at hb
+      rw [← hb]; exact ⟨(per_iter_good r _ hp x).1, (per_iter_good r _ hp x).2.1⟩
+    · rw [iterate_idem _ (refl_idem_RR r) _ hr] at hb
+      rw [← hb, refl_val]; exact C16_round_reflect_range r _
+
+end roundedArrays
+
 /-! ### non-vacuity: concrete values -/
 example : periodic (-0.25 : ℝ) = 0.75 := by
   rw [periodic_eq_fract, Int.fract_eq_iff]; refine ⟨by norm_num, by norm_num, -1, by norm_num⟩
@@ -313,5 +1009,29 @@ example : reflect (2.5 : ℝ) = 0.5 := by
 example : reflect (1.25 : ℝ) = 0.75 := by
   have hf : ⌊(1.25 : ℝ)⌋ = 1 := by rw [Int.floor_eq_iff]; constructor <;> norm_num
   rw [reflect_odd _ (by rw [hf]; rfl)]; simp [Int.fract, hf]; norm_num
+
+
+/-- vector theorem, instantiated: d = 3, coordinate 0 periodic, 1 reflective, 2 untouched,
+    independent Cauchy-shaped increments -/
+example (x y : Fin 3 → ℝ) :
+    Kvec [0] [1] (fun z : Fin 3 → ℝ => ∏ i, (1 / (1 + (z i) ^ 2))) x y =
+    Kvec [0] [1] (fun z : Fin 3 → ℝ => ∏ i, (1 / (1 + (z i) ^ 2))) y x :=
+  C16_fold_vector_product_symmetric [0] [1] (fun _ z => 1 / (1 + z ^ 2)) (by intro i z; simp) x y
+/-- periodic folds with a CORRELATED even density (not a product) -/
+example (x y : Fin 2 → ℝ) :
+    Kvec [0, 1] [] (fun z : Fin 2 → ℝ => 1 / (1 + (z 0 + z 1) ^ 2 + (z 0) ^ 2)) x y =
+    Kvec [0, 1] [] (fun z : Fin 2 → ℝ => 1 / (1 + (z 0 + z 1) ^ 2 + (z 0) ^ 2)) y x :=
+  C16_fold_vector_periodic_symmetric [0, 1] [] _ (by simp) (by intro z; simp; ring_nf) x y
+/-- kernel form, instantiated with a Cauchy-shaped increment density -/
+example (f g : ℝ → ENNReal) (hf : Measurable f) (hg : Measurable g) :
+    ∫⁻ x in Set.Ioo (0:ℝ) 1, f x * ∫⁻ ξ, g (reflect (x + ξ)) * ENNReal.ofReal (1 / (1 + ξ ^ 2)) =
+    ∫⁻ y in Set.Ioo (0:ℝ) 1, g y * ∫⁻ ξ, f (reflect (y + ξ)) * ENNReal.ofReal (1 / (1 + ξ ^ 2)) :=
+  C16_reflective_kernel_reversible (fun z => ENNReal.ofReal (1 / (1 + z ^ 2))) f g
+    (by fun_prop) hf hg (by intro z; simp)
+/-- rounded arrays: `−1/4` in a periodic coordinate under the rounding-up arithmetic goes to `1`, then `0` -/
+example : ((apply [0] [] [RR.mk ScRound.ceilR (-1/4)])[0]?).map RR.val = some 1 := by
+  simp only [apply, List.foldl_cons, List.foldl_nil, List.modify_cons, List.modify_nil,
+    List.getElem?_cons_zero, Option.map_some]
+  exact congrArg some C16_round_periodic_not_idem.1
 
 end Props.C16
